@@ -90,7 +90,7 @@ type res struct {
 type thr struct {
 	c, k    int
 	kind    int
-	status  int // -1 running, 0/1/2/3/4 returned, 10 in loader, 11 waiting, 12 parked between save's unlock and Add
+	status  int // -1 running, 0/1/2/3/4 returned, 10 in loader, 11 waiting, 12 parked at the schedule point after save's unlock
 	atHook  chan struct{}
 	hookGo  chan struct{}
 	val     int64
@@ -641,10 +641,10 @@ func randCall(r *rng.R, w *world, nextV *int64) (Evt, bool) {
 	return Evt{}, false
 }
 
-// maintDuringSaveOK: Release / Rotate / Cleanup / CleanEmptyGenerations may run while a saver is parked
-// between save's unlock and its gen.size.Add (false as long as the Add comes after the unlock: the
-// counters are transiently wrong there, see witness-R4).
-const maintDuringSaveOK = false
+// maintDuringSaveOK: Release / Rotate / Cleanup / CleanEmptyGenerations may run while a saver is parked at
+// the schedule point after save's unlock. True since save does its gen.size.Add before the unlock; before
+// that repair the counters were transiently wrong in this window (see witness-R4).
+const maintDuringSaveOK = true
 
 // resumeEvt: let creator id finish; in concurrent schedules a successful creator is sometimes parked
 // at the schedule point between save's unlock and its gen.size.Add.
@@ -835,8 +835,8 @@ func witnesses(cw *casefile.Writer) {
 	w.do(Evt{Op: "cleanup"})
 	w.do(Evt{Op: "cleanup"})
 	w.emit(cw, "witness-R2", true)
-	// R4: CleanEmptyGenerations between a save's unlock and its gen.size.Add (the Add lands on a generation
-	// the cleaner no longer lists)
+	// R4 (regression stream, strict): CleanEmptyGenerations while a saver is parked after save's unlock. Before
+	// the repair "Add before Unlock" the Add landed on a generation the cleaner no longer lists (268 vs 386)
 	w = newWorld(2000)
 	w.do(Evt{Op: "new"})
 	w.do(Evt{Op: "call", C: 0, K: 2, V: 1, Sz: 200})
@@ -847,12 +847,7 @@ func witnesses(cw *casefile.Writer) {
 	w.do(Evt{Op: "call", C: 0, K: 2, V: 3, Sz: 1})
 	w.do(Evt{Op: "gcgens"})
 	w.do(Evt{Op: "add", T: 1})
-	if w.dead == "" {
-		if a, l := w.cl.VerifGetSize(), w.liveSum(); a != l {
-			cw.Count(fmt.Sprintf("witness-R4-gc-between-unlock-and-add: accounted %d live %d", a, l))
-		}
-	}
-	w.emit(cw, "witness-R4", false)
+	w.emit(cw, "witness-R4", true)
 	// R3: Release while a creator is inside its loader (outside the stated domain: callers finish
 	// before a cache is released; counted, not reported)
 	w = newWorld(2000)
